@@ -1,6 +1,7 @@
 import Inkayaku.Props.Translated.MakeUnmake
 import Inkayaku.Props.Translated.ZobristXor
 import Inkayaku.Props.Translated.Check
+import Inkayaku.Gen.Rs.Legal
 import Inkayaku.Proofs.GenOK
 import Inkayaku.Proofs.GenFacts
 /-! Part of `Props/Translated`: see `Props/Translated/Basic.lean` for the overview.
@@ -122,6 +123,20 @@ theorem rs_is_valid_after_make {b : Board} (h : wf b = true) (m : Board.Move) :
   exact rs_is_valid_eq (Board.make b m) (by rw [e1]; omega)
 
 #print axioms rs_is_valid_after_make
+
+/-- END-TO-END `is_move_legal` (`make; is_valid; unmake`, translated from the current source): for every generated move of
+a well-formed board it never panics, returns the model's legality verdict and leaves the model's `unmake (make b m)` —
+the original position up to the scratch word (second component of `rs_unmake_generated`) -/
+theorem rs_is_move_legal_generated {b : Board} (h : wf b = true) {m : Board.Move} (hm : m ∈ genPseudo b) :
+    Rs.Bitboard.is_move_legal (toRsSide b.white) (toRsSide b.black) b.turn b.ep b.fullmove b.halfmove m.bits
+      rookF bishopF knightF whitePawnF blackPawnF kingF =
+    some (isMoveLegal b m, boardFields (Board.unmake (Board.make b m) m)) := by
+  unfold Rs.Bitboard.is_move_legal
+  rw [rs_make_generated h hm]
+  simp only [boardFields, Option.bind_eq_bind, Option.bind_some, rs_is_valid_after_make h m, (rs_unmake_generated h hm).1,
+    Option.pure_def]
+
+#print axioms rs_is_move_legal_generated
 
 /-! non-vacuity: the hypotheses are satisfiable (1. e2-e4 in a small legal position) -/
 example : wf demoPos = true := by decide +kernel
